@@ -38,7 +38,8 @@ INT_RANGE = {"int8": (-128, 127), "int16": (-2 ** 15, 2 ** 15 - 1), "int32": (-2
              "uint64": (0, 2 ** 64 - 1), "bool": (0, 1)}
 GEOMS = [(2, 3), (3, 2), (1, 4), (2, 2), (3, 4), (1, 1), (4, 1), (2, 4)]
 SPECIAL = {"nan": 1000000001, "inf": 1000000002, "-inf": 1000000003}
-CLAUSES = {1: "inv", 2: "failed_assign", 3: "read_empty", 4: "read_value", 5: "eq_spec", 6: "reset"}
+CLAUSES = {1: "inv", 2: "failed_assign", 3: "read_empty", 4: "read_value", 5: "eq_spec", 6: "reset",
+           7: "must_reject", 8: "assign_stores"}
 
 
 # ------------------------------------------------------------------------------------------ generators
@@ -181,6 +182,39 @@ def gen_xr(r, rows, cols, budget, p_valid, w=None, dt=None, vclass=None, form=No
             "data": gen_values(r, dt, prod(shape), vclass, budget)}
 
 
+def wl_variant(r, a, legal_only=False):
+    """The same numbers as the 3-D photon array `a` on ANOTHER wavelength grid (shifted, one value changed, reversed,
+    another subset of WL) or -- not a legal content, only ever used as the OTHER operand of a comparison -- with the
+    dims in another order / without the coordinate.  None when `a` is not a DataArray with a coordinate."""
+    if a is None or a["xr"] is None or a["xr"]["wl"] is None:
+        return None
+    b = copy.deepcopy(a)
+    wl = list(b["xr"]["wl"])
+    forms = ["shift", "one", "grid"] + (["reverse"] if len(wl) > 1 else []) + ([] if legal_only else ["perm", "nocoord"])
+    f = r.choice(forms)
+    if f == "shift":
+        d = r.choice([5, 200, -20])
+        wl = [x + d for x in wl]
+    elif f == "one":
+        j = r.randrange(len(wl))
+        wl[j] += r.choice([1, 3, 10])
+    elif f == "grid":
+        wl = [600 + 100 * i for i in range(len(wl))]
+    elif f == "reverse":
+        wl = wl[::-1]
+    elif f == "perm":
+        if len(set(b["shape"])) == 1:              # same shape under another order of the dimension names
+            b["xr"]["dims"] = r.choice([[1, 2, 0], [2, 0, 1], [0, 2, 1]])
+        else:
+            b["xr"]["dims"], b["shape"] = [1, 2, 0], b["shape"][1:] + b["shape"][:1]
+        return b
+    else:
+        b["xr"]["wl"] = None
+        return b
+    b["xr"]["wl"] = wl
+    return b
+
+
 def is_valid_for(bucket, rows, cols, a):
     """Would this array be a legal content (python-side helper for the generator only)."""
     if a is None:
@@ -209,7 +243,9 @@ def gen_other(r, bucket, rows, cols, budget, last_valid, det):
         content = None
     elif x < 0.65 and last_valid is not None and is_valid_for(k, ro, co, last_valid):
         content = copy.deepcopy(last_valid)
-        if r.random() < 0.3 and content["data"]:
+        if content["xr"] is not None and r.random() < 0.45:
+            content = wl_variant(r, content) or content        # same numbers, another wavelength grid
+        elif r.random() < 0.3 and content["data"]:
             j = r.randrange(len(content["data"]))
             if isinstance(content["data"][j], int):
                 content["data"][j] += 1
@@ -242,6 +278,8 @@ def gen_case(r, det, bucket, rows, cols, n_ops, p_valid):
                 o["arr"] = gen_np(r, bucket, rows, cols, budget, p_valid)
                 if photon and r.random() < 0.25:
                     o["via"] = "array_2d"          # the alias property of Photon
+                if k == "update" and o["arr"]["dt"] in ("int64", "float64", "bool") and r.random() < 0.4:
+                    o["via"] = "list"              # update() takes array-likes: a nested Python list of the same values
                 if is_valid_for(bucket, rows, cols, o["arr"]):
                     last_valid, holds3d = o["arr"], False
         elif k == "set3d":
@@ -355,7 +393,12 @@ def gen_eq_case(r, det, bucket, rows, cols):
         b = copy.deepcopy(a)
         kind, ro, co = bucket, rows, cols
         v = r.random()
-        if v < 0.2:
+        if photon3d and r.random() < 0.4:
+            b = wl_variant(r, a)                                   # same numbers on another wavelength grid / dims order
+            v = 2.0
+        if v > 1.0:
+            pass
+        elif v < 0.2:
             pass                                                   # identical
         elif v < 0.45:                                             # one element differs by one
             j = r.randrange(len(b["data"]))
@@ -471,7 +514,8 @@ def gen_3d_case(r, det, rows, cols):
         elif k == "eq":
             ro, co = (rows, cols) if r.random() < 0.7 else r.choice(GEOMS)
             v = r.random()
-            content = (copy.deepcopy(first) if v < 0.35 and (ro, co) == (rows, cols) else
+            content = (wl_variant(r, first) if v < 0.2 and (ro, co) == (rows, cols) else
+                       copy.deepcopy(first) if v < 0.35 and (ro, co) == (rows, cols) else
                        gen_xr(r, ro, co, budget, 1.0, vclass="pos") if v < 0.7 else
                        gen_np(r, "photon", ro, co, budget, 1.0, vclass="pos") if v < 0.85 else None)
             ops.append({"op": r.choice(["eq", "eqrev"]), "other": {"kind": "photon", "rows": ro, "cols": co, "content": content}})
@@ -500,6 +544,187 @@ def gen_family_cases(ctx: Ctx, n: int, salt: str = "families"):
             out.append(gen_reset_case(r, det, bucket, rows, cols))
     return out
 
+
+
+# ---- assignment families: illegal assignments on FILLED containers; empty containers assigned onto populated buckets
+
+
+def forbidden_dtypes(bucket):
+    return [d for d in DTYPES if d not in ALLOWED[bucket]]
+
+
+def gen_fill_ops(r, det, bucket, rows, cols, budget, dt=None):
+    """One of the ways a bucket gets a legal content: returns (ops, holds3d)."""
+    dt = dt or r.choice(ALLOWED[bucket])
+    vc = r.choice(["pos", "pos", "zero", "pos+nan"]) if bucket != "image" else r.choice(["pos", "zero"])
+    if bucket == "photon" and r.random() < 0.35:
+        a = gen_xr(r, rows, cols, budget, 1.0, dt=dt, vclass=vc)
+        how = r.choice(["set3d", "iadd", "dassign"])
+        if how == "set3d":
+            return [{"op": "set3d", "arr": a}], True
+        if how == "iadd":
+            return [dict({"op": "iadd", "arr": a}, **({"via": "detector"} if r.random() < 0.5 else {}))], True
+        return [{"op": "dassign", "other": {"kind": "photon", "rows": rows, "cols": cols, "content": a}}], True
+    a = gen_np(r, bucket, rows, cols, budget, 1.0, "right", dt, vc)
+    ways = ["set", "set", "iadd", "iadd_det", "add"]
+    if bucket != "photon":
+        ways += ["update", "update_list"]
+    if bucket != "phase":
+        ways += ["dassign"]
+    if bucket == "photon":
+        ways += ["array_2d"]
+    if bucket == "pixel":
+        ways += ["empty_zeros", "dempty_zeros"]
+    how = r.choice(ways)
+    if how == "set":
+        ops = [{"op": "set", "arr": a}]
+    elif how == "array_2d":
+        ops = [{"op": "set", "arr": a, "via": "array_2d"}]
+    elif how == "iadd":
+        ops = [{"op": "iadd", "arr": a}]
+    elif how == "iadd_det":
+        ops = [{"op": "iadd", "arr": a, "via": "detector"}]
+    elif how == "add":
+        ops = [{"op": "add", "arr": a}]
+    elif how == "update":
+        ops = [{"op": "update", "arr": a}]
+    elif how == "update_list":
+        a = dict(a, dt="float64") if bucket != "image" else a
+        ops = [{"op": "update", "arr": a}]
+        if a["dt"] == "float64":
+            ops[0]["via"] = "list"
+    elif how == "dassign":
+        ops = [{"op": "dassign", "other": {"kind": bucket, "rows": rows, "cols": cols, "content": a}}]
+    elif how == "empty_zeros":
+        ops = [{"op": "empty"}]                          # Pixel.empty() leaves float64 zeros: a FILLED container
+    else:
+        ops = [{"op": "set", "arr": a}, {"op": "dempty", "reset": True}]
+    if r.random() < 0.25:
+        ops.append({"op": "iadd", "arr": gen_np(r, bucket, rows, cols, budget, 1.0, "right", r.choice(ALLOWED[bucket]), "pos")})
+    return ops, False
+
+
+def gen_illegal_operand(r, det, bucket, rows, cols, budget, dt=None):
+    """(op dict) one assignment of an array that is NO legal content of the bucket, through one of its entry points."""
+    photon = bucket == "photon"
+    kind = r.choices(["dtype", "shape", "container", "otherkind"], [60, 20, 12, 8])[0]
+    if dt is not None:
+        kind = "dtype"
+    if kind == "otherkind" and bucket != "phase":
+        # the (legal) content of a bucket of another kind whose element type is forbidden here
+        ks = [k for k in ["photon", "pixel", "signal", "image"] if set(ALLOWED[k]) != set(ALLOWED[bucket])]
+        k = r.choice(ks)
+        a = gen_np(r, k, rows, cols, budget, 1.0, "right", r.choice(ALLOWED[k]), "pos")
+        return {"op": "dassign", "other": {"kind": k, "rows": rows, "cols": cols, "content": a}}
+    three_d = photon and r.random() < 0.3
+    if kind == "container" or kind == "otherkind":
+        if photon:      # ndarray to the 3-D setter is refused but it is a legal photon content: use ill-formed DataArrays
+            a = gen_xr(r, rows, cols, budget, 0.0, dt=r.choice(FLOATS), vclass="pos",
+                       form=r.choice(["perm", "2d", "nocoord", "badyx", "othername"]))
+            return {"op": r.choice(["set3d", "set3d", "iadd_empty"]), "arr": a}
+        a = gen_xr(r, rows, cols, budget, 0.0, form=r.choice(["2d", "2d", "good", "nocoord"]), dt=r.choice(ALLOWED[bucket]), vclass="pos")
+        return {"op": "set", "arr": a}
+    if kind == "dtype":
+        dt = dt or r.choice(forbidden_dtypes(bucket))
+        vc = r.choice(["pos", "pos", "neg", "allneg", "nan", "zero", "wrap"])
+        a = (gen_xr(r, rows, cols, budget, 1.0, dt=dt, vclass=vc) if three_d else
+             gen_np(r, bucket, rows, cols, budget, 1.0, "right", dt, vc))
+    else:
+        gdt = r.choice(ALLOWED[bucket])
+        a = (gen_xr(r, rows, cols, budget, 0.0, dt=gdt, vclass="pos", form=r.choice(["perm", "nocoord", "badyx", "othername"]))
+             if three_d else gen_np(r, bucket, rows, cols, budget, 0.0, r.choice(SHAPE_BAD), gdt, "pos"))
+    if three_d:
+        return {"op": r.choice(["set3d", "set3d", "dassign"]), "arr": a}
+    entries = ["set", "set"] + (["array_2d"] if photon else ["update", "update"]) + ([] if bucket == "phase" else ["dassign"])
+    e = r.choice(entries)
+    if e == "array_2d":
+        return {"op": "set", "arr": a, "via": "array_2d"}
+    if e == "update" and a["dt"] in ("int64", "float64", "bool") and r.random() < 0.5:
+        return {"op": "update", "arr": a, "via": "list"}
+    return {"op": e, "arr": a}
+
+
+def finish_assign_op(o, bucket, rows, cols):
+    """`dassign` / `iadd_empty` written with an "arr" -> the op list form"""
+    if o["op"] == "dassign" and "arr" in o:
+        return [{"op": "dassign", "other": {"kind": bucket, "rows": rows, "cols": cols, "content": o["arr"]}}]
+    if o["op"] == "iadd_empty":
+        return [{"op": "empty"}, {"op": "iadd", "arr": o["arr"]}]       # `+=` on an emptied container is an assignment
+    return [o]
+
+
+def gen_filled_reject_case(r, det, bucket, rows, cols, exhaustive_dtypes=False):
+    """fill the bucket, then a run of assignments that must ALL be refused (every forbidden element type when
+    `exhaustive_dtypes`), with reads / comparisons in between: the content must stay what the fill left"""
+    budget = [1900]
+    ops, _ = gen_fill_ops(r, det, bucket, rows, cols, budget)
+    filled = None
+    bad = forbidden_dtypes(bucket)
+    r.shuffle(bad)
+    todo = bad if exhaustive_dtypes else bad[:r.choice([3, 4, 6])]
+    items = [gen_illegal_operand(r, det, bucket, rows, cols, budget, dt=d) for d in todo]
+    items += [gen_illegal_operand(r, det, bucket, rows, cols, budget) for _ in range(r.choice([1, 2, 3]))]
+    r.shuffle(items)
+    for it in items:
+        budget[0] = max(budget[0], 400)
+        new = finish_assign_op(it, bucket, rows, cols)
+        if new[0]["op"] == "empty" and bucket == "pixel":
+            new = new[1:]                               # Pixel.empty() does not empty
+        ops += new
+        if new[0]["op"] == "empty":                     # the container was emptied on purpose: fill it again afterwards
+            ops += gen_fill_ops(r, det, bucket, rows, cols, budget)[0]
+        x = r.random()
+        if x < 0.2:
+            ops.append({"op": r.choice(["read", "asarray"] + (["read3d"] if bucket == "photon" else []))})
+        elif x < 0.3:
+            ops.append({"op": r.choice(["eq", "eqrev"]), "other": {"kind": bucket, "rows": rows, "cols": cols, "content": None}})
+    ops.append({"op": "read"})
+    return {"det": det, "rows": rows, "cols": cols, "bucket": bucket, "ops": ops}
+
+
+def gen_assign_empty_case(r, det, bucket, rows, cols):
+    """populate the bucket, assign an EMPTY container to it through the Detector setter, then read, compare, increment"""
+    budget = [1900]
+    ops, holds3d = gen_fill_ops(r, det, bucket, rows, cols, budget)
+    kinds = buckets_of(det)
+    for rnd in range(r.choice([1, 1, 2])):
+        x = r.random()
+        k = bucket if x < 0.75 else r.choice(kinds)
+        ro, co = (rows, cols) if r.random() < 0.75 else r.choice(GEOMS)
+        ops.append({"op": "dassign", "other": {"kind": k, "rows": ro, "cols": co, "content": None}})
+        for _ in range(r.choice([1, 2, 3])):
+            y = r.choice(["read", "read", "read3d" if bucket == "photon" else "read", "asarray", "eq", "eqrev", "iadd", "dassign", "set"])
+            if y in ("eq", "eqrev"):
+                ops.append({"op": y, "other": {"kind": bucket, "rows": rows, "cols": cols, "content": None}})
+            elif y == "iadd":
+                a = (gen_xr(r, rows, cols, budget, 1.0, vclass="pos") if (bucket == "photon" and r.random() < 0.3) else
+                     gen_np(r, bucket, rows, cols, budget, 1.0, "right", r.choice(ALLOWED[bucket]), "pos"))
+                ops.append(dict({"op": "iadd", "arr": a}, **({"via": "detector"} if r.random() < 0.5 else {})))
+                ops.append({"op": "read3d" if a["xr"] is not None else "read"})
+            elif y == "dassign":
+                a = gen_np(r, bucket, rows, cols, budget, 1.0, "right", r.choice(ALLOWED[bucket]), "pos")
+                ops.append({"op": "dassign", "other": {"kind": bucket, "rows": rows, "cols": cols, "content": a}})
+            elif y == "set":
+                ops.append({"op": "set", "arr": gen_np(r, bucket, rows, cols, budget, 0.9)})
+            else:
+                ops.append({"op": y})
+    return {"det": det, "rows": rows, "cols": cols, "bucket": bucket, "ops": ops}
+
+
+def gen_assign_cases(ctx: Ctx, n: int, salt: str = "assign", exhaustive_dtypes=False):
+    r = ctx.rng(salt)
+    dets = ["ccd", "mkid", "cmos", "mkid", "apd"]
+    out = []
+    for i in range(n):
+        det = dets[i % len(dets)]
+        rows, cols = r.choice(GEOMS)
+        bs = buckets_of(det)
+        bucket = bs[(i // len(dets)) % len(bs)]
+        if i % 3 == 2 and bucket != "phase":
+            out.append(gen_assign_empty_case(r, det, bucket, rows, cols))
+        else:
+            out.append(gen_filled_reject_case(r, det, bucket, rows, cols, exhaustive_dtypes))
+    return out
 
 
 def alphabet(bucket, rows, cols):
@@ -557,7 +782,11 @@ def alphabet(bucket, rows, cols):
         ops += [{"op": "set", "arr": mix2}, {"op": "set", "arr": mix2i}, {"op": "set3d", "arr": x3mix}]
         ops += [{"op": "set3d", "arr": x3}, {"op": "set3d", "arr": x3n}, {"op": "set3d", "arr": x3bad},
                 {"op": "iadd", "arr": x3}, {"op": "iadd", "arr": x3n}, {"op": "read3d"},
-                {"op": "eq", "other": {"kind": "photon", "rows": rows, "cols": cols, "content": x3}}]
+                {"op": "eq", "other": {"kind": "photon", "rows": rows, "cols": cols, "content": x3}},
+                {"op": "eq", "other": {"kind": "photon", "rows": rows, "cols": cols,
+                                       "content": dict(x3, xr={"dims": [0, 1, 2], "wl": [400, 440]})}},
+                {"op": "eqrev", "other": {"kind": "photon", "rows": rows, "cols": cols,
+                                          "content": dict(x3, xr={"dims": [0, 1, 2], "wl": [600, 700]})}}]
     else:
         ops += [{"op": "iadd", "arr": {"xr": {"dims": [1, 2], "wl": None}, "shape": [rows, cols], "dt": good_dt, "data": [2] * n}},
                 {"op": "add", "arr": {"xr": {"dims": [1, 2], "wl": None}, "shape": [rows, cols], "dt": good_dt, "data": [3] * n},
@@ -818,6 +1047,10 @@ EXPECT = {
     "read_value": "a read returns the stored array and does not change it",
     "eq_spec": "a == b  <->  same kind, same geometry, both empty or equal arrays (and it does not raise)",
     "reset": "empty()/update(None)/detector.empty() leave no data behind (pixel: zeros)",
+    "must_reject": "an assignment of an array that is no legal content (element type, ndarray/DataArray, shape, dims, "
+                   "wavelength coordinate) raises, whatever the container holds at that moment",
+    "assign_stores": "a completed assignment leaves the assigned array in the container (photons: negatives clipped); "
+                     "a completed assignment of an EMPTY container leaves the bucket empty (no stale data)",
 }
 
 
@@ -983,6 +1216,7 @@ def run(ctx: Ctx):
     cases += gen_cases(ctx, ctx.budget(350, 2000), "malformed", 0.3)
     cases += gen_eq_cases(ctx, ctx.budget(200, 1500))
     cases += gen_family_cases(ctx, ctx.budget(240, 1500))
+    cases += gen_assign_cases(ctx, ctx.budget(150, 900), exhaustive_dtypes=not ctx.quick)
     if not ctx.quick:
         cases += exhaustive_cases(2)
         e3 = exhaustive3_cases()
@@ -1113,7 +1347,7 @@ def new_violations(ctx: Ctx):
 def search(ctx: Ctx):
     """A proof obligation or the correspondence broke: look harder for a concrete failing input."""
     ctx.log("searching for a concrete failing input (all pairs of the op alphabet, larger random budget)")
-    cases = exhaustive_cases(2) + gen_cases(ctx, 1500, "search", 0.5) + gen_eq_cases(ctx, 600, "search_eq") + gen_family_cases(ctx, 600, "search_fam")
+    cases = exhaustive_cases(2) + gen_cases(ctx, 1500, "search", 0.5) + gen_eq_cases(ctx, 600, "search_eq") + gen_family_cases(ctx, 600, "search_fam") + gen_assign_cases(ctx, 500, "search_assign", True)
     for b in ctx.broken:
         if isinstance(b.case, dict) and "case" in b.case:
             cases.append(b.case["case"])
